@@ -40,6 +40,9 @@ def setup(env, n_eval, n_idx, use_default):
     dt = env.real("dt", lo=DT_MIN, hi=D_MAX)
     if sym:
         Dv, dtv = IntRR(D), RR(dt)
+        # integrality is not needed for the proofs (dropping it over-approximates) but a
+        # counterexample is only replayable with an integer duration and integer indices
+        env.ctx.soft.append(z3.IsInt(D.re.z3()))
     else:
         D = float(round(D))
         Dv, dtv = int(D), float(dt)
@@ -70,6 +73,7 @@ def setup(env, n_eval, n_idx, use_default):
         for k, r in enumerate(idx_raw):
             if sym:
                 env.assume(r <= n.v, "grid index within range(n_steps+1)")
+                env.ctx.soft.append(z3.IsInt(r.re.z3()))
                 if prev is not None:
                     env.assume(r >= prev + 1, "second index larger than the first")
                 prev = r
